@@ -17,8 +17,11 @@ RULE = ("the HTTP/1 fault scenarios of C03 (client FIN/RST at any byte, origin F
         "DESIGN appendix A.2 over the hook recorder, SimNet's count of simultaneously open upstream pipes per address "
         "(<= 5), and a resource census at quiescence (handler.transports empty, every SimNet pipe of a finished handler "
         "closed by the proxy, no surviving task, _KEEP_ALIVE empty). non-trivial = an upstream connection was attempted "
-        "AND a fault or connection-hook action fired; distinct = distinct event-log digests. The >5-concurrent-streams "
-        "path (HTTP/2 client to HTTP/1 origin) is exercised by the C05 scenarios, whose runs carry the same census.")
+        "AND a fault or connection-hook action fired; distinct = distinct event-log digests. 15% of the runs are the "
+        "HTTP/2-client-to-one-HTTP/1-origin family (6-14 concurrent streams over one real-TLS client connection, scripted "
+        "connect refusals / timeouts / early origin FIN/RST, latency in server_connect/server_connected): oracle = at most 5 "
+        "upstream pipes to the address open at once (exact open/close times from SimNet), no pipe left unclosed, no "
+        "stream answered with another stream's reply.")
 COMPONENTS_REAL = ["ConnectionHandler.handle_client/open_connection/handle_connection/drain_writers/close_connection",
                    "server_hooks", "ProxyConnectionHandler", "Proxyserver.register_connection", "Master", "AddonManager",
                    "HTTP/1 layers"]
@@ -26,10 +29,16 @@ COMPONENTS_STUB = ["kernel TCP (SimNet pipes with injected write/close errors)",
 ASSUMPTIONS = ["a connect attempt always ends (success or OSError) within 20 simulated seconds, as a kernel connect does",
                "obligations are judged at quiescence after every peer has closed and every scripted hold was released"]
 EXPECTED_PROBES = ["server_connect", "server_connect_error", "server_disconnected", "client_left_before_connect_done",
-                   "conn_hook_latency", "two_clients", "write_error"]
+                   "conn_hook_latency", "two_clients", "write_error", "h2h1_runs", "reached_limit", "waited_for_slot",
+                   "attempt_failed_while_others_open"]
 
 
 def generate(rng, tier):
+    if rng.at("c09-family").random() < 0.15:
+        # HTTP/2 client -> one HTTP/1 origin address: one upstream connection per stream, the only path on which one
+        # client opens more than one connection to an address (ConnectionHandler.max_conns)
+        from peers import h2_conc
+        return {"family": "lifecycle-h2h1-concurrency", "h2h1": h2_conc.gen_h2h1_concurrency(rng.at("c09-h2h1"))}
     sc = c03.generate(rng, tier)
     r = rng.at("c09")
     # latency / errors inside connection hooks
@@ -69,7 +78,15 @@ def oracle(sc, obs):
     # ---- automaton ---------------------------------------------------------------------------------
     clients = {}   # client id -> [connected, disconnected]
     servers = {}   # server id -> list of hook names
-    for t, name, key, snap in obs.hooks:
+    # a hook "fires" when the addon manager triggers it, i.e. when the first addon sees it; the recorder (last addon) does
+    # not see a hook during which an async addon was cancelled
+    fired = []
+    for t, name, data in w.hooks_fired:
+        if name in ("client_connected", "client_disconnected"):
+            fired.append((t, name, data.id, None))
+        elif name in ("server_connect", "server_connected", "server_connect_error", "server_disconnected"):
+            fired.append((t, name, data.server.id, None))
+    for t, name, key, snap in fired:
         if name == "client_connected":
             clients.setdefault(key, [0, 0])[0] += 1
         elif name == "client_disconnected":
@@ -180,7 +197,35 @@ def oracle(sc, obs):
     return v, probes
 
 
+def execute_h2h1(sc):
+    from peers import h2_conc
+    res = h2_conc.run_h2h1_concurrency(sc["h2h1"])
+    v = []
+    probes = dict(res["probes"])
+    probes["h2h1_runs"] = 1
+    if res["crashes"]:
+        probes["crashed_run_skipped"] = 1
+    else:
+        if res["max_open_excl_leaked"] > h2_conc.LIMIT:
+            v.append({"class": "too_many_upstream_connections", "key": {},
+                      "msg": f"{res['max_open_excl_leaked']} upstream connections to {h2_conc.ADDR} were open at the same "
+                             f"time for one client connection (limit {h2_conc.LIMIT}); attempts={res['attempts']} "
+                             f"refused={res['refused']} early_closed={res['early_closed']}"})
+        if res["leaked_pipes"]:
+            v.append({"class": "resource_leak", "key": {"h2h1_upstream_pipe_never_closed": True},
+                      "msg": f"{res['leaked_pipes']} upstream pipe(s) to {h2_conc.ADDR} were never closed by the proxy although "
+                             f"the client connection handler finished (handler_done={res['handler_done']})"})
+        if res["foreign"]:
+            v.append({"class": "answer_for_other_stream", "key": {},
+                      "msg": f"{res['foreign']} stream(s) received the origin's answer for another stream's marker"})
+    nontrivial = res["attempts"] > 1 and (res["refused"] or res["early_closed"] or res["reached_limit"])
+    return {"violations": v, "digest": res["digest"], "nontrivial": bool(nontrivial), "faults": res["faults"],
+            "probes": probes, "sim_s": res["sim_s"]}
+
+
 def execute(sc):
+    if "h2h1" in sc:
+        return execute_h2h1(sc)
     obs = H.run(sc, monitors=(monitor,))
     v, probes = oracle(sc, obs)
     w = obs.world
